@@ -33,6 +33,7 @@ def main():
     ap.add_argument('--checks')
     ap.add_argument('--tier', default='quick')
     ap.add_argument('--skip-confirm', action='store_true')
+    ap.add_argument('--scratch', action='store_true')
     a = ap.parse_args()
     pid = a.id
     name = a.name or pid
@@ -76,19 +77,33 @@ def main():
                 meta[k] = old[k]
         meta['history'] = old.get('history', []) + [dict(at=old.get('at'), detected_by=old.get('detected_by'), checks_run=old.get('checks_run'))]
     # run the checks against the change
-    rc, st = sh('git status --porcelain --untracked-files=no', cwd='/repo')
+    target = '/repo'
+    extra_env = None
+    if a.scratch:
+        # evaluate on a scratch checkout (VERIF_REPO) so that /repo is not modified while other runs read it
+        target = '/tmp/eval_%s' % name
+        sh('git -C /repo worktree remove --force %s' % target)
+        rc, out = sh('git -C /repo worktree add --detach %s HEAD' % target)
+        if rc != 0:
+            print('cannot create scratch checkout', out)
+            sys.exit(2)
+        extra_env = {'VERIF_REPO': target}
+    outdir = '/tmp/eval_out_%s' % name
+    os.makedirs(outdir, exist_ok=True)
+    extra_env = dict(extra_env or {}, VERIF_OUT_DIR=outdir)
+    rc, st = sh('git status --porcelain --untracked-files=no', cwd=target)
     if st.strip():
-        print('/repo is not clean, refusing', st)
+        print('%s is not clean, refusing' % target, st)
         sys.exit(2)
-    rc, out = sh('git apply %s' % os.path.join(dst, 'patch.diff'), cwd='/repo')
+    rc, out = sh('git apply %s' % os.path.join(dst, 'patch.diff'), cwd=target)
     if rc != 0:
-        print('patch does not apply to /repo:', out)
+        print('patch does not apply to %s:' % target, out)
         sys.exit(2)
     results = {}
     try:
         for c in checks:
             t0 = time.time()
-            rc, out = sh('./check %s --tier %s' % (c, a.tier), cwd='/verif', timeout=7200)
+            rc, out = sh('./check %s --tier %s' % (c, a.tier), cwd='/verif', env=extra_env, timeout=7200)
             viol = [l for l in out.splitlines() if l.startswith('VIOLATION')]
             results[c] = dict(exit=rc, violations=len(viol), first=viol[:2], wall_s=round(time.time() - t0, 1),
                               tail=out.strip().splitlines()[-1:] )
@@ -96,7 +111,12 @@ def main():
             if rc == 2:
                 print(out[-1500:])
     finally:
-        sh('git checkout -- .', cwd='/repo')
+        shutil.rmtree(outdir, ignore_errors=True)
+        if a.scratch:
+            sh('git -C /repo worktree remove --force %s' % target)
+            sh('git -C /repo worktree prune')
+        else:
+            sh('git checkout -- .', cwd='/repo')
     meta['results'] = results
     meta['detected_by'] = [c for c, r in results.items() if r['exit'] == 1]
     with open(os.path.join(dst, 'meta.json'), 'w') as f:
